@@ -1,9 +1,9 @@
 (* C18 - translator obligations: single-entry sections *)
-From Slinky Require Import Model.Types Model.Generated Model.Style Model.Script Proofs.Tables.
+From Slinky Require Import Model.Types Model.Generated Model.Style Model.Script Proofs.TablesC18.
 Local Open Scope string_scope.
 
 Theorem C18_tables_single_entry : forall ind s,
-  render_stmt ind (SSingleEntry s) = [indent_str ind ++ fmt (tpl fmt_sb 0) [s; "0"; s]].
+  render_stmt ind (SSingleEntry s) = [indent_str ind ++ fmt t_sb_write_single_entry_section_0 [s; "0"; s]].
 Proof. exact sb_single_entry. Qed.
 
 Print Assumptions C18_tables_single_entry.
